@@ -28,6 +28,15 @@
 //!   N i af p       as Q, asked of generated vRIB i: GET /prefixes/<i>/<prefix>: v:<entries>; v:- when no vRIB answers there
 //!                  (the physical RIB then takes the request and says 400); v:STALL when the request is not answered within
 //!                  VRIB_STALL_MS - the case ends there, every later op prints `x`.
+//!   J j            the operator edits the configuration: `[units.bmp-in]` is taken out (0) / is there (1). A case with J ops has a
+//!                  SECOND ingress unit from the start: `[units.bmp-in2]`, a bmp-tcp-in on its own port with `http_api_path =
+//!                  "/routers2/"`; the RIB units source both (`sources = ["bmp-in", "bmp-in2"]`, or `["bmp-in2"]` while bmp-in is out).
+//!                  Routers 0..3 connect to bmp-in, routers 4..7 to bmp-in2. Takes effect with the next H / L: the manager TERMINATES
+//!                  the running bmp-in (the engine waits until every connection of that unit has been closed by the unit and until
+//!                  GET /routers/ says 404) or STARTS a new one (on the port in force: L = another port). A router that connects to a
+//!                  bmp-in unit started by a reload is a new source: it is named k<8*g + k> where g = how many bmp-in units were
+//!                  started before that one. `C k` while the unit of router k does not run is skipped.
+//!   JL u           GET the router list of ingress unit u (0: /routers/, 1: /routers2/): r:<routers listed>, r:- when nothing answers there
 //! Script variants (rib-in-pre is what the RIB units fetch when they are started): 1..8 `rib-in-pre` rejects the routes of
 //! prefix 10.<s>.0.0/16 (prefix s of the R ops; the peers of these cases have no 4-octet-AS capability, so the AS-path
 //! predicates see nothing in their routes); 9 a script without a rib-in-pre filter.
@@ -48,6 +57,9 @@ use std::sync::atomic::{AtomicU32, Ordering};
 use std::time::{Duration, Instant};
 
 const UNIT: &str = "bmp-in";
+const UNIT2: &str = "bmp-in2";
+const UNITS: [&str; 2] = [UNIT, UNIT2];
+const LISTS: [&str; 2] = ["/routers/", "/routers2/"];
 const STALL_MS: u64 = 3000;
 /// a prefix query of a vRIB (trigger to the physical RIB, result back through the chain) normally takes a millisecond
 const VRIB_STALL_MS: u64 = 1500;
@@ -133,6 +145,7 @@ struct Desired {
     file_no: u32,  // the script's file name: filters.roto, filters-1.roto, ...
     rib2: u32,     // 0 absent, 1 rib, 2 bgp-tcp-in
     vribs: u32,    // `rib` is a shorthand RIB with that many generated vRIBs (0: a plain RIB)
+    ingress: bool, // `[units.bmp-in]` is in the configuration
 }
 
 fn script_name(n: u32) -> String { if n == 0 { "filters.roto".into() } else { format!("filters-{n}.roto") } }
@@ -159,6 +172,7 @@ pub struct Conn {
     pub rid: Option<u32>,
     counts: Vec<u64>,       // messages counted for this connection per template variant of the router id
     shown: Option<usize>,   // the variant under which the latest message was counted
+    unit: usize,            // the ingress unit it is connected to (0: bmp-in, 1: bmp-in2)
 }
 
 pub struct World {
@@ -168,9 +182,13 @@ pub struct World {
     pub http_port: u16,
     spare_ports: Vec<u16>,
     pub conns: BTreeMap<u32, Conn>,
-    accepted: u64,
-    lost: u64,
-    binds: u64,
+    accepted: [u64; 2],              // per ingress unit (counters of the unit that runs under that name now)
+    lost: [u64; 2],
+    binds: [u64; 2],
+    two: bool,                       // the case has a second ingress unit (cases with J ops)
+    bmp2_port: u16,
+    running: [bool; 2],              // which ingress units run
+    gen: u32,                        // bmp-in units started before the one that runs (or ran last)
     reloaded: bool,
     variant: usize,
     ids_of: BTreeMap<u32, Vec<u32>>,  // router key -> the different ingress ids it has been given
@@ -183,13 +201,18 @@ pub struct World {
     wedged: bool,                    // a request was never answered: Manager::terminate is not tried at the end of the case
 }
 
-fn config_text(bmp_port: u16, http_port: u16, variant: usize, d: &Desired, bgp_port: u16) -> String {
+fn config_text(bmp_port: u16, http_port: u16, variant: usize, d: &Desired, bgp_port: u16, bmp2_port: Option<u16>) -> String {
     let tpl = TEMPLATES[variant];
     // debugging aid: VH_E2E_LOG=<level> makes rotonda log at that level to stderr (World::start then also initialises its logger)
     let lvl = std::env::var("VH_E2E_LOG").unwrap_or_else(|_| "error".into());
     let script = if d.script == 0 { String::new() } else { format!("roto_script = \"{}\"\n", script_name(d.file_no)) };
+    // what the RIB units source: the ingress units of the configuration
+    let mut ingresses: Vec<&str> = vec![];
+    if d.ingress { ingresses.push(UNIT); }
+    if bmp2_port.is_some() { ingresses.push(UNIT2); }
+    let sources = ingresses.iter().map(|u| format!("\"{u}\"")).collect::<Vec<_>>().join(", ");
     let rib2 = match d.rib2 {
-        1 => format!("\n[units.rib2]\ntype = \"rib\"\nsources = [\"{UNIT}\"]\nhttp_api_path = \"/rib2/\"\n\n[targets.null2]\ntype = \"null-out\"\nsources = [\"rib2\"]\n"),
+        1 => format!("\n[units.rib2]\ntype = \"rib\"\nsources = [{sources}]\nhttp_api_path = \"/rib2/\"\n\n[targets.null2]\ntype = \"null-out\"\nsources = [\"rib2\"]\n"),
         2 => format!("\n[units.rib2]\ntype = \"bgp-tcp-in\"\nlisten = \"127.0.0.1:{bgp_port}\"\nmy_asn = 64512\nmy_bgp_id = [1, 2, 3, 4]\n\n[targets.null2]\ntype = \"null-out\"\nsources = [\"rib2\"]\n"),
         _ => String::new(),
     };
@@ -198,10 +221,17 @@ fn config_text(bmp_port: u16, http_port: u16, variant: usize, d: &Desired, bgp_p
     let shorthand = if d.vribs == 0 { String::new() } else {
         format!("filter_names = [{}]\n", (0..=d.vribs).map(|i| format!("\"f{i}\"")).collect::<Vec<_>>().join(", "))
     };
+    let bmp1 = if d.ingress {
+        format!("[units.{UNIT}]\ntype = \"bmp-tcp-in\"\nlisten = \"127.0.0.1:{bmp_port}\"\nrouter_id_template = \"{tpl}\"\n\n")
+    } else { String::new() };
+    let bmp2 = match bmp2_port {
+        Some(p) => format!("[units.{UNIT2}]\ntype = \"bmp-tcp-in\"\nlisten = \"127.0.0.1:{p}\"\nhttp_api_path = \"{}\"\nrouter_id_template = \"{tpl}\"\n\n", LISTS[1]),
+        None => String::new(),
+    };
     format!(
         "http_listen = [\"127.0.0.1:{http_port}\"]\nlog_level = \"{lvl}\"\nlog_target = \"stderr\"\n{script}\n\
-         [units.{UNIT}]\ntype = \"bmp-tcp-in\"\nlisten = \"127.0.0.1:{bmp_port}\"\nrouter_id_template = \"{tpl}\"\n\n\
-         [units.rib]\ntype = \"rib\"\nsources = [\"{UNIT}\"]\n{shorthand}\n\
+         {bmp1}{bmp2}\
+         [units.rib]\ntype = \"rib\"\nsources = [{sources}]\n{shorthand}\n\
          [targets.null]\ntype = \"null-out\"\nsources = [\"rib\"]\n{rib2}"
     )
 }
@@ -221,12 +251,12 @@ fn config_file(dir: &Option<PathBuf>, text: String) -> ConfigFile {
 
 impl World {
     /// What src/main.rs does: load the config through the manager, start the HTTP server, spawn the units.
-    pub fn start(files: bool, script: u32) -> World { World::start_with(files, script, 0) }
+    pub fn start(files: bool, script: u32) -> World { World::start_with(files, script, 0, false) }
 
-    fn start_with(files: bool, script: u32, vribs: u32) -> World {
-        let ports = pick_ports(5);
+    fn start_with(files: bool, script: u32, vribs: u32, two: bool) -> World {
+        let ports = pick_ports(6);
         if std::env::var("VH_E2E_LOG").is_ok() { let _ = Config::init(); }
-        let desired = Desired { script, file_no: 0, rib2: 0, vribs };
+        let desired = Desired { script, file_no: 0, rib2: 0, vribs, ingress: true };
         let dir = if files {
             let d = case_dir();
             std::fs::create_dir_all(&d).expect("case directory");
@@ -237,7 +267,7 @@ impl World {
         let mgr = {
             let _g = rt.enter();
             let mut mgr = Manager::new();
-            let file = config_file(&dir, config_text(ports[0], ports[1], 0, &desired, ports[4]));
+            let file = config_file(&dir, config_text(ports[0], ports[1], 0, &desired, ports[4], if two { Some(ports[5]) } else { None }));
             let (_src, mut config) = match Config::from_config_file(file, &mut mgr) { Ok(x) => x, Err(_) => panic!("config rejected") };
             if config.http.run(mgr.metrics(), mgr.http_resources()).is_err() { panic!("http server did not start"); }
             mgr.spawn(&mut config);
@@ -245,11 +275,12 @@ impl World {
         };
         let mut w = World {
             rt: Some(rt), mgr, bmp_port: ports[0], http_port: ports[1], spare_ports: ports[2..4].to_vec(),
-            conns: BTreeMap::new(), accepted: 0, lost: 0, binds: 1, reloaded: false, variant: 0, ids_of: BTreeMap::new(), rids: BTreeMap::new(), notes: vec![], stalled: None,
+            conns: BTreeMap::new(), accepted: [0; 2], lost: [0; 2], binds: [1; 2], two, bmp2_port: ports[5], running: [true, two], gen: 0, reloaded: false, variant: 0, ids_of: BTreeMap::new(), rids: BTreeMap::new(), notes: vec![], stalled: None,
             dir, desired, bgp_port: ports[4], wedged: false,
         };
         // the pipeline is up when the bmp-tcp-in unit has bound its listener (units start together, after their waitpoint)
         w.wait_metrics("listener bound", |t| metric_sum(t, "bmp_tcp_in_listener_bound_count_total", &[("component", UNIT)]) == Some(1));
+        if two { w.wait_metrics("second listener bound", |t| metric_sum(t, "bmp_tcp_in_listener_bound_count_total", &[("component", UNIT2)]) == Some(1)); }
         w
     }
 
@@ -294,19 +325,21 @@ impl World {
     /// state-machine lock to do so: it returns only after the messages already
     /// counted as received have been fully processed (process_msg holds that lock
     /// until the update has gone through the gate into the RIB unit).
-    fn routers_listed(&self) -> Option<u64> {
-        let (_, body) = self.get("/routers/")?;
+    fn routers_listed(&self, u: usize) -> Option<u64> {
+        let (st, body) = self.get(LISTS[u])?;
+        if st != 200 { return None; }
         let i = body.find("Showing ")? + 8;
         body[i..].split_whitespace().next()?.parse().ok()
     }
 
     /// the ingress ids GET /routers/ lists (first cell of every row links to /routers/<id>)
-    fn listed_ids(&self) -> Vec<u32> {
-        let Some((_, body)) = self.get("/routers/") else { return vec![] };
+    fn listed_ids(&self, u: usize) -> Vec<u32> {
+        let Some((_, body)) = self.get(LISTS[u]) else { return vec![] };
         let mut ids = vec![];
         for row in body.split("<tr>").skip(2) {
-            if let Some(i) = row.find("<td><a href=\"/routers/") {
-                let rest = &row[i + 22..];
+            let pat = format!("<td><a href=\"{}", LISTS[u]);
+            if let Some(i) = row.find(&pat) {
+                let rest = &row[i + pat.len()..];
                 if let Some(id) = rest.split('"').next().and_then(|x| x.parse::<u32>().ok()) { ids.push(id); }
             }
         }
@@ -315,10 +348,16 @@ impl World {
 
     /// the unit says it lost more connections than this side closed: find the sockets the other side closed
     fn reap(&mut self, text: &str) -> bool {
-        let lost = metric_sum(text, "bmp_tcp_in_connection_lost_count_total", &[("component", UNIT)]).unwrap_or(0);
-        if lost <= self.lost { return false; }
+        let mut any = false;
+        for u in 0..2 { if self.running[u] { any |= self.reap_unit(text, u); } }
+        any
+    }
+
+    fn reap_unit(&mut self, text: &str, u: usize) -> bool {
+        let lost = metric_sum(text, "bmp_tcp_in_connection_lost_count_total", &[("component", UNITS[u])]).unwrap_or(0);
+        if lost <= self.lost[u] { return false; }
         let mut dead = vec![];
-        for (k, c) in self.conns.iter_mut() {
+        for (k, c) in self.conns.iter_mut().filter(|(_, c)| c.unit == u) {
             let mut b = [0u8; 1];
             let _ = c.stream.set_nonblocking(true);
             let r = c.stream.peek(&mut b);
@@ -329,26 +368,36 @@ impl World {
                 _ => {}
             }
         }
-        for k in dead.iter() { self.conns.remove(k); self.lost += 1; }
+        for k in dead.iter() { self.conns.remove(k); self.lost[u] += 1; }
         !dead.is_empty()
     }
 
     fn barrier(&mut self) {
-        let want = self.conns.len() as u64;
-        let t0 = Instant::now();
-        loop {
-            if self.routers_listed() == Some(want) { return; }
-            if t0.elapsed() > Duration::from_millis(if self.stalled.is_some() { 50 } else { STALL_MS }) {
-                if self.stalled.is_none() { self.stalled = Some(format!("router list does not show {want} routers")); }
-                return;
+        for u in 0..2 {
+            if !self.running[u] { continue; }
+            let want = self.conns.values().filter(|c| c.unit == u).count() as u64;
+            let t0 = Instant::now();
+            loop {
+                if self.routers_listed(u) == Some(want) { break; }
+                if t0.elapsed() > Duration::from_millis(if self.stalled.is_some() { 50 } else { STALL_MS }) {
+                    if self.stalled.is_none() { self.stalled = Some(format!("router list does not show {want} routers")); }
+                    return;
+                }
+                std::thread::sleep(Duration::from_micros(300));
             }
-            std::thread::sleep(Duration::from_micros(300));
         }
     }
 
+    /// the ingress unit router k connects to, and the name of the source it then is: in a case with two ingress units routers
+    /// 0..3 belong to bmp-in and 4..7 to bmp-in2; a router of a bmp-in unit that a reload started is a new source
+    fn unit_of(&self, k: u32) -> usize { if self.two && k % 8 >= 4 { 1 } else { 0 } }
+    fn name_key(&self, k: u32) -> u32 { if self.unit_of(k) == 0 { k + 8 * self.gen } else { k } }
+
     pub fn connect(&mut self, k: u32) {
+        let u = self.unit_of(k);
+        if !self.running[u] { return; }
         let local = SocketAddr::from((Ipv4Addr::new(127, 0, 0, 10 + k as u8), 0));
-        let remote = SocketAddr::from((Ipv4Addr::LOCALHOST, self.bmp_port));
+        let remote = SocketAddr::from((Ipv4Addr::LOCALHOST, if u == 0 { self.bmp_port } else { self.bmp2_port }));
         let rt = self.rt.as_ref().unwrap();
         let t0 = Instant::now();
         let stream = loop {
@@ -368,19 +417,19 @@ impl World {
         let stream = stream.into_std().unwrap();
         stream.set_nonblocking(false).unwrap();
         stream.set_nodelay(true).unwrap();
-        self.accepted += 1;
-        let want = self.accepted;
-        self.wait_metrics("connection accepted", |t| metric_sum(t, "bmp_tcp_in_connection_accepted_count_total", &[("component", UNIT)]) == Some(want));
+        self.accepted[u] += 1;
+        let want = self.accepted[u];
+        self.wait_metrics("connection accepted", |t| metric_sum(t, "bmp_tcp_in_connection_accepted_count_total", &[("component", UNITS[u])]) == Some(want));
         // the router list names the id the accept loop gave this router: the one no other open connection has
         let others: Vec<u32> = self.conns.values().filter_map(|c| c.rid).collect();
-        let fresh: Vec<u32> = self.listed_ids().into_iter().filter(|i| !others.contains(i)).collect();
+        let fresh: Vec<u32> = self.listed_ids(u).into_iter().filter(|i| !others.contains(i)).collect();
         let rid = if fresh.len() == 1 { Some(fresh[0]) } else { None };
         if let Some(r) = rid {
-            self.rids.insert(r, k);
+            self.rids.insert(r, self.name_key(k));
             let ids = self.ids_of.entry(k).or_default();
             if !ids.contains(&r) { ids.push(r); }
         }
-        self.conns.insert(k, Conn { stream, written: 0, rid, counts: vec![0; TEMPLATES.len()], shown: None });
+        self.conns.insert(k, Conn { stream, written: 0, rid, counts: vec![0; TEMPLATES.len()], shown: None, unit: u });
         if self.reloaded {
             // nothing says that a silent connection is being served; after a reload give the unit a moment to drop it
             let t0 = Instant::now();
@@ -394,10 +443,10 @@ impl World {
     }
 
     /// messages the unit has counted for this connection, under whichever template its router id was derived from
-    fn received(text: &str, rid: Option<u32>) -> Vec<(usize, u64)> {
+    fn received(text: &str, rid: Option<u32>, u: usize) -> Vec<(usize, u64)> {
         let Some(r) = rid else { return vec![] };
         (0..TEMPLATES.len())
-            .filter_map(|v| metric_sum(text, "bmp_tcp_in_num_bmp_messages_received_total", &[("component", UNIT), ("router", &label_of(v, r))]).map(|n| (v, n)))
+            .filter_map(|v| metric_sum(text, "bmp_tcp_in_num_bmp_messages_received_total", &[("component", UNITS[u]), ("router", &label_of(v, r))]).map(|n| (v, n)))
             .collect()
     }
 
@@ -421,13 +470,13 @@ impl World {
         // (a write on a connection the unit has closed may fail: then the lost counter tells)
         let _ = c.stream.write_all(bytes);
         c.written += 1;
-        let (want, rid) = (c.written, c.rid);
-        let lost = self.lost;
+        let (want, rid, u) = (c.written, c.rid, c.unit);
+        let lost = self.lost[u];
         let text = self.wait_metrics("message received", |t| {
-            World::received(t, rid).iter().map(|x| x.1).sum::<u64>() == want
-                || metric_sum(t, "bmp_tcp_in_connection_lost_count_total", &[("component", UNIT)]).unwrap_or(0) > lost
+            World::received(t, rid, u).iter().map(|x| x.1).sum::<u64>() == want
+                || metric_sum(t, "bmp_tcp_in_connection_lost_count_total", &[("component", UNITS[u])]).unwrap_or(0) > lost
         });
-        let seen = World::received(&text, rid);
+        let seen = World::received(&text, rid, u);
         if let Some(c) = self.conns.get_mut(&k) {
             for (v, n) in seen {
                 if n > c.counts[v] { c.shown = Some(v); }
@@ -440,14 +489,15 @@ impl World {
     }
 
     pub fn disconnect(&mut self, k: u32) {
-        let sent = |t: &str| metric_sum(t, "num_updates_total", &[("component", UNIT)]).unwrap_or(0);
+        let u = self.conns.get(&k).unwrap().unit;
+        let sent = |t: &str| metric_sum(t, "num_updates_total", &[("component", UNITS[u])]).unwrap_or(0);
         let sent_before = sent(&self.metrics());
         let c = self.conns.remove(&k).unwrap();
         let _ = c.stream.shutdown(std::net::Shutdown::Both);
         drop(c);
-        self.lost += 1;
-        let want = self.lost;
-        self.wait_metrics("connection lost", |t| metric_sum(t, "bmp_tcp_in_connection_lost_count_total", &[("component", UNIT)]) == Some(want));
+        self.lost[u] += 1;
+        let want = self.lost[u];
+        self.wait_metrics("connection lost", |t| metric_sum(t, "bmp_tcp_in_connection_lost_count_total", &[("component", UNITS[u])]) == Some(want));
         // Let the cleanup get through the gate (it sends a WithdrawBulk and an EndOfStream) before the router list is
         // asked for: a GET /routers/ that arrives while the cleanup still holds the session's lock waits for it and
         // then re-creates the state-machine metrics the cleanup has just dropped (observation O3 of design-notes/E2E.md;
@@ -459,7 +509,8 @@ impl World {
         self.barrier();
     }
 
-    /// SIGHUP-style reload with another listen address: the unit re-binds its listener
+    /// SIGHUP-style reload; `rebind`: with another listen address for bmp-in (a running unit re-binds its listener, a unit that
+    /// this reload starts binds there)
     fn reload(&mut self, rebind: bool, variant: Option<usize>) {
         self.reloaded = true;
         if let Some(v) = variant { self.variant = v.min(TEMPLATES.len() - 1); }
@@ -468,12 +519,14 @@ impl World {
             let old = std::mem::replace(&mut self.bmp_port, p);
             self.spare_ports.insert(0, old);
         }
+        let was_running = self.running[0];
         {
             let _g = self.rt.as_ref().unwrap().enter();
-            let file = config_file(&self.dir, config_text(self.bmp_port, self.http_port, self.variant, &self.desired, self.bgp_port));
+            let file = config_file(&self.dir, config_text(self.bmp_port, self.http_port, self.variant, &self.desired, self.bgp_port, if self.two { Some(self.bmp2_port) } else { None }));
             let (_src, mut config) = match Config::from_config_file(file, &mut self.mgr) { Ok(x) => x, Err(_) => panic!("config rejected") };
             self.mgr.spawn(&mut config);
         }
+        self.running[0] = self.desired.ingress;
         if self.dir.is_some() {
             // every unit has taken the reload - the old ones their Reconfigure (the rib units are subscribed to the bmp
             // unit's new gate again), a unit started by this reload has connected its links and runs (guarded hook
@@ -481,10 +534,39 @@ impl World {
             let r = self.rt.as_ref().unwrap().block_on(self.mgr.verif_settle(Duration::from_millis(if self.stalled.is_some() { 50 } else { STALL_MS })));
             if let Err(unit) = r { if self.stalled.is_none() { self.stalled = Some(format!("unit {unit} did not take the reload")); } }
         }
-        if rebind {
+        if was_running && !self.running[0] {
+            // bmp-in was taken out: the manager terminates it. Every connection of the unit ends - the router's side sees
+            // its socket closed once the unit's task for that connection has finished (RouterHandler::run: the read loop's
+            // 'gate terminated' exit and what follows it) - and the unit's router list goes away with the unit.
+            let ks: Vec<u32> = self.conns.iter().filter(|(_, c)| c.unit == 0).map(|(k, _)| *k).collect();
+            for k in ks {
+                let c = self.conns.remove(&k).unwrap();
+                let _ = c.stream.set_read_timeout(Some(Duration::from_millis(if self.stalled.is_some() { 50 } else { STALL_MS })));
+                let mut b = [0u8; 16];
+                let mut s = &c.stream;
+                let closed = match s.read(&mut b) { Ok(0) => true, Ok(_) => false, Err(e) => !matches!(e.kind(), std::io::ErrorKind::WouldBlock | std::io::ErrorKind::TimedOut) };
+                if !closed && self.stalled.is_none() { self.stalled = Some(format!("removed unit keeps the connection of router {k}")); }
+            }
+            let t0 = Instant::now();
+            loop {
+                if matches!(self.get(LISTS[0]), Some((404, _))) { break; }
+                if t0.elapsed() > Duration::from_millis(if self.stalled.is_some() { 50 } else { STALL_MS }) {
+                    if self.stalled.is_none() { self.stalled = Some("removed unit still answers at its router list".into()); }
+                    break;
+                }
+                std::thread::sleep(Duration::from_micros(500));
+            }
+        } else if !was_running && self.running[0] {
+            // a bmp-in unit was started: a new unit with new counters (and a new ingress id of its own)
+            self.gen += 1;
+            self.accepted[0] = 0;
+            self.lost[0] = 0;
+            self.binds[0] = 1;
+            self.wait_metrics("listener of the added unit bound", |t| metric_sum(t, "bmp_tcp_in_listener_bound_count_total", &[("component", UNIT)]) == Some(1));
+        } else if rebind && self.running[0] {
             // the unit counts every successful bind of its listener
-            self.binds += 1;
-            let b = self.binds;
+            self.binds[0] += 1;
+            let b = self.binds[0];
             self.wait_metrics("listener re-bound", |t| metric_sum(t, "bmp_tcp_in_listener_bound_count_total", &[("component", UNIT)]) == Some(b));
         } else if self.dir.is_none() {
             // nothing observable says that the units have taken an unchanged configuration: give the reconfigure tasks time
@@ -540,9 +622,11 @@ impl World {
     }
 }
 
-/// (the case keeps files, start-up script, start-up number of vRIBs, how many leading ops describe the start-up configuration)
-fn startup_of(all: &[Vec<&str>]) -> (bool, u32, u32, usize) {
-    let files = all.iter().any(|o| matches!(o[0], "F" | "W" | "Y" | "K"));
+/// (the case keeps files, start-up script, start-up number of vRIBs, how many leading ops describe the start-up configuration,
+/// the case has a second ingress unit)
+fn startup_of(all: &[Vec<&str>]) -> (bool, u32, u32, usize, bool) {
+    let two = all.iter().any(|o| matches!(o[0], "J" | "JL"));
+    let files = two || all.iter().any(|o| matches!(o[0], "F" | "W" | "Y" | "K"));
     let (mut script, mut vribs, mut lead) = (0, 0, 0);
     for (i, o) in all.iter().enumerate() {
         match o[0] {
@@ -552,13 +636,13 @@ fn startup_of(all: &[Vec<&str>]) -> (bool, u32, u32, usize) {
         }
         lead = i + 1;
     }
-    (files, script, vribs, lead)
+    (files, script, vribs, lead, two)
 }
 
 pub fn run_case(line: &str) -> String {
     let all = ops(line);
-    let (files, startup, vribs, _lead) = startup_of(&all);
-    let mut w = World::start_with(files, startup, vribs);
+    let (files, startup, vribs, _lead, two) = startup_of(&all);
+    let mut w = World::start_with(files, startup, vribs, two);
     let mut out: Vec<String> = vec![];
     let mut ended = false;
     for op in all {
@@ -592,7 +676,8 @@ pub fn run_case(line: &str) -> String {
                     let i = n(2) as usize;
                     // (moved, not grew: after a change of the template the gauge of the new label starts at 0 and a Peer Down wraps it)
                     let went_up = before.iter().zip(after.iter()).any(|(b, a)| a != b);
-                    if went_up && !w.notes.contains(&(k, i)) { w.notes.push((k, i)); }
+                    let nk = w.name_key(k);
+                    if went_up && !w.notes.contains(&(nk, i)) { w.notes.push((nk, i)); }
                 } else {
                     w.send(k, &bytes);
                 }
@@ -636,12 +721,26 @@ pub fn run_case(line: &str) -> String {
                 w.desired.vribs = n(1).min(MAX_VRIBS);
                 out.push("-".into());
             }
+            "J" => {
+                w.desired.ingress = n(1) != 0;
+                out.push("-".into());
+            }
+            "JL" => {
+                let u = (n(1) as usize).min(1);
+                out.push(match w.get(LISTS[u]) {
+                    Some((200, _)) => match w.routers_listed(u) { Some(c) => format!("r:{c}"), None => "r:?".into() },
+                    Some((404, _)) => "r:-".into(),
+                    Some((st, _)) => format!("r:http-{st}"),
+                    None => "r:http-error".into(),
+                });
+            }
             "N" => {
                 let t = w.query_at(&format!("/prefixes/{}/", n(1)), "v", n(2), n(3));
                 // an HTTP request that is never answered: whatever was to answer it is gone or cut off; the case ends here
                 if t == "v:STALL" { ended = true; w.wedged = true; }
                 out.push(t);
             }
+            "M" if w.two => { out.push("-".into()); out.push("-".into()); }
             "M" => {
                 let k = n(1);
                 let text = w.metrics();
@@ -650,7 +749,8 @@ pub fn run_case(line: &str) -> String {
                     (true, None) => out.push("m:?".into()),
                     (true, Some(l)) => out.push(format!("m:{}", metrics_vec_label(&text, &l))),
                 }
-                let g = |name: &str| metric_sum(&text, name, &[("component", UNIT)]).map(|v| v.to_string()).unwrap_or_else(|| "?".into());
+                let comp = UNITS[w.conns.get(&k).map(|c| c.unit).unwrap_or(0)];
+                let g = |name: &str| metric_sum(&text, name, &[("component", comp)]).map(|v| v.to_string()).unwrap_or_else(|| "?".into());
                 out.push(format!("n:{},{},{}", g("bmp_num_connected_routers_total"), g("bmp_tcp_in_connection_accepted_count_total"), g("bmp_tcp_in_connection_lost_count_total")));
             }
             _ => panic!("bad op {:?}", op),
@@ -681,9 +781,9 @@ pub fn special(name: &str, args: &[String]) -> bool {
             }
             let c = w.conns.remove(&0).unwrap();
             drop(c);
-            w.lost += 1;
+            w.lost[0] += 1;
             for _ in 0..20 { let _ = w.get("/routers/"); }
-            let want = w.lost;
+            let want = w.lost[0];
             w.wait_metrics("connection lost", |t| metric_sum(t, "bmp_tcp_in_connection_lost_count_total", &[("component", UNIT)]) == Some(want));
             std::thread::sleep(Duration::from_millis(20));
             let n = metric_sum(&w.metrics(), "bmp_num_connected_routers_total", &[("component", UNIT)]).unwrap_or(0);
@@ -696,14 +796,15 @@ pub fn special(name: &str, args: &[String]) -> bool {
     if name == "e2e-raw" {
         // debugging aid: vh e2e-raw '<case>' <path> : run the case, then print one HTTP resource raw
         let all = ops(&args[0]);
-        let (files, startup, vribs, _lead) = startup_of(&all);
-        let mut w = World::start_with(files, startup, vribs);
+        let (files, startup, vribs, _lead, two) = startup_of(&all);
+        let mut w = World::start_with(files, startup, vribs, two);
         for op in all {
             let n = |i: usize| op[i].parse::<u32>().unwrap();
             match op[0] {
                 "W" => w.edit_script(n(1), op.get(2).map(|x| *x == "1").unwrap_or(false)),
                 "Y" => w.desired.rib2 = n(1).min(2),
                 "K" => w.desired.vribs = n(1).min(MAX_VRIBS),
+                "J" => w.desired.ingress = n(1) != 0,
                 "C" => w.connect(n(1)),
                 "I" => { w.send(n(1), &enc::mk_initiation_msg("r", "d")); }
                 "U" => { w.send(n(1), &enc::mk_peer_up_notification_msg(&pph(n(2) as usize), "10.0.0.1".parse().unwrap(), 11019, 4567, 111, 222, 0, 0, vec![], n(3) == 1)); }
